@@ -144,7 +144,7 @@ type frame struct {
 	isFunc bool
 	defers []deferred
 	// targs binds the type parameters of a generic function to the type arguments of this call
-	targs map[*types.TypeParam]types.Type
+	targs  map[*types.TypeParam]types.Type
 	vars   map[types.Object]*Value
 	parent *frame
 	info   *types.Info
